@@ -537,7 +537,12 @@ def rule_every_record_kept(prog, rep):
     r.add("append-unconditional", bool(arm) and leak is None and U(app[0].value.args[0]) == "record",
           f"within the coordinate-record arm the append is reached for every outcome of the other tests {others}" if leak is None else
           f"a coordinate record is dropped when {leak}", where)
-    # the record loop of the reader: only blank lines are skipped
+    # the record loop of the reader: only blank lines are skipped (decided on a model file when the reader can be evaluated)
+    try:
+        if reader_on_model(prog, r):
+            modelled = True
+    except AnalysisError:
+        modelled = False
     rd = prog.func("pdb.py", "read_pdb").node
     rl = [s for s in rd.body if isinstance(s, (ast.While, ast.For))][-1]
     conts = [s for s in iter_stmts(rl.body) if isinstance(s, ast.Continue) and enclosing_loops(s)[0] is rl]
@@ -547,8 +552,9 @@ def rule_every_record_kept(prog, rep):
         if not (g and g[-1] in (("line == ''", True), ("not line", True)) and len([x for x in g if x[1]]) >= 1
                 and all(t in ("line == ''", "not line") for t, p in g)):
             bad.append(g)
-    r.add("reader-skips-only-blank-lines", not bad, f"continue statements of the read loop: {len(conts)}, all guarded by the blank-line test"
-          if not bad else f"the read loop skips lines under {bad[0]}", f"pdb2pqr/pdb.py:{rl.lineno} (read_pdb)")
+    if not modelled:
+        r.add("reader-skips-only-blank-lines", not bad, f"continue statements of the read loop: {len(conts)}, all guarded by the blank-line test"
+              if not bad else f"the read loop skips lines under {bad[0]}", f"pdb2pqr/pdb.py:{rl.lineno} (read_pdb)")
     # get_molecule / setup_molecule / drop_water are the only stages between reader and grouping
     md = prog.func("main.py", "main_driver").node
     chain = []
@@ -759,3 +765,40 @@ def rule_water(prog, rep):
         if isinstance(st, ast.Assign) and U(st.targets[0]) == "water_residue_names":
             wn = try_fold(st.value)
     r.add("water-names", wn is not None and set(wn) == {"HOH", "WAT"}, f"water residue names: {wn}", "pdb2pqr/aa.py (WAT)")
+
+
+def reader_on_model(prog, r):
+    """pdb.read_pdb is evaluated on a model file (header, blank and whitespace-only lines, an unknown record name, remarks, coordinate records
+    before and after END): every coordinate record must come back, in file order, whatever else the file holds.  True if evaluated."""
+    from ..fsmodel import FileSystemModel
+    from ..guards import Flow
+    from ..objinterp import ObjRunner
+    coords = [pdb_line("ATOM", 1, "N", "", "MET", "A", 1, "", 26.8, 41.153, 3.834), pdb_line("HETATM", 2, "O", "", "HOH", "A", 201, "", 1.0, 2.0, 3.0),
+              pdb_line("ATOM", 3, "CA", "A", "GLY", "B", -6, "C", -1.5, 0.0, -12.25), pdb_line("ATOM", 4, "OXT", "", "GLY", "B", 7, "", 5.0, 6.0, 7.0),
+              pdb_line("HETATM", 5, "ZN", "", "ZN", "", 300, "", 9.0, 9.0, 9.0)]
+    lines = ["HEADER    MODEL FILE", "", coords[0], "      ", "FOOBAR an unknown record name", coords[1], "REMARK   1 a remark", "REMARK   1 another remark", coords[2],
+             "TER", coords[3], "END", coords[4], ""]
+    fs = FileSystemModel({"model.pdb": "\n".join(lines) + "\n"})
+    run = ObjRunner(prog, "pdb.py", extra_hook=fs.hook)
+    registry = {}
+    for key, ci in prog.classes.items():
+        if ci.module.rel == "pdb.py" and any(U(d).endswith("register_line_parser") for d in ci.node.decorator_list):
+            registry[ci.name] = run.class_ref(ci.name)
+    if "ATOM" not in registry:
+        raise AnalysisError("pdb.py: no registered line parsers found")
+    run.module_state["pdb.py"] = {**run.module_env("pdb.py"), "LINE_PARSERS": registry}
+    rd = prog.func("pdb.py", "read_pdb").node
+    where = f"pdb2pqr/pdb.py:{rd.lineno} (read_pdb)"
+    try:
+        fobj = fs.hook(run, None, ast.parse("open('model.pdb')").body[0].value, ["model.pdb"], {})
+        got = run.call_function("pdb.py", "read_pdb", fobj)
+    except Flow as fl:
+        r.bad("reader|model-file", f"read_pdb stops with {fl.value} on the model file", where)
+        return True
+    if not (isinstance(got, (list, tuple)) and len(got) == 2 and isinstance(got[0], list)):
+        raise AnalysisError("read_pdb did not return (records, errors) on the model file")
+    serials = [o.get("serial") for o in got[0] if isinstance(o, dict) and o.get("__class__") in ("ATOM", "HETATM")]
+    r.add("reader|model-file", serials == [1, 2, 3, 4, 5] and not {"ATOM", "HETATM"} & set(got[1]),
+          f"model file of {len(lines)} lines (blank and whitespace-only lines, an unknown record, remarks, TER, END in the middle): coordinate records returned "
+          f"{serials}, names reported as unparsable {list(got[1])}; expected the five records in file order", where)
+    return True
